@@ -68,14 +68,14 @@ package diam
 //@ func (*AVP).Len(a) (r)
 //@   property C01 C02 C03 C04
 //@   pure
-//@   requires a != nil && a.Data != nil && valid(a.Data)
+//@   requires a != nil && a.Data != nil && deepvalid(a.Data)
 //@   ensures [C02] rfc: r == avplen(a)
 //@ end
 //@
 //@ func NewAVP(code, flags, vendor, data) (a)
 //@   property C01 C02 C16
 //@   modifies
-//@   requires data != nil && valid(data)
+//@   requires data != nil && deepvalid(data)
 //@   ensures fields: a != nil && fresh(a) && a.Code == code && a.VendorID == vendor && a.Data == data
 //@   ensures [C02] vflag: a.Flags == (vendor > 0 ? flags | 0x80 : flags)
 //@   ensures [C02] length: flags & 0x80 == 0x80 || vendor == 0 ==> a.Length == hdrlen(a.Flags) + dlen(data)
@@ -156,7 +156,7 @@ package diam
 //@ func (*AVP).SerializeTo(a, b) (err)
 //@   property C01 C02 C03
 //@   requires a != nil
-//@   requires room: a.Data != nil ==> valid(a.Data) && len(b) >= avplen(a) && dlen(a.Data) >= 0 && dlen(a.Data) < (1<<24) - 12
+//@   requires room: a.Data != nil ==> deepvalid(a.Data) && len(b) >= avplen(a) && dlen(a.Data) >= 0 && dlen(a.Data) < (1<<24) - 12
 //@   requires separate: a.Data != nil ==> !viewsInto(a.Data, b)
 //@   modifies b[0:avplen(a)]
 //@   ensures nodata: a.Data == nil <==> err != nil
@@ -171,4 +171,62 @@ package diam
 //@     invariant 0 <= i && i <= dpad(a.Data)
 //@     invariant [C02 thorough] zeroed: forall j int :: 0 <= j && j < i ==> b[j] == 0
 //@   end
+//@ end
+//@
+//@ # ======================= lengths and serialisation of lists ===============
+//@ func (*GroupedAVP).Len(g) (r)
+//@   property C01 C02 C03
+//@   pure
+//@   implements datatype.Type.Len
+//@   requires g != nil && wf(g.AVP)
+//@   hint wf.def(g.AVP)
+//@   ensures [C02] sum: r == sumlen(g.AVP, len(g.AVP))
+//@   loop 0
+//@     invariant 0 - 1 <= rangeindex && rangeindex < len(g.AVP)
+//@     invariant [C02] partial: l == sumlen(g.AVP, rangeindex + 1)
+//@     hint sumlen.unfold(g.AVP, rangeindex + 2)
+//@   end
+//@ end
+//@
+//@ func (*Message).Len(m) (r)
+//@   property C01 C02 C03
+//@   pure
+//@   requires m != nil && wf(m.AVP)
+//@   hint wf.def(m.AVP)
+//@   ensures [C02] sum: r == 20 + sumlen(m.AVP, len(m.AVP))
+//@   loop 0
+//@     invariant 0 - 1 <= rangeindex && rangeindex < len(m.AVP)
+//@     invariant [C02] partial: l == 20 + sumlen(m.AVP, rangeindex + 1)
+//@     hint sumlen.unfold(m.AVP, rangeindex + 2)
+//@   end
+//@ end
+//@
+//@ func NewMessage(cmd, flags, appid, hopbyhop, endtoend, dictionary) (m)
+//@   property C02 C16
+//@   modifies
+//@   ensures shape: m != nil && fresh(m) && m.Header != nil && fresh(m.Header) && len(m.AVP) == 0
+//@   ensures [C02] version: m.Header.Version == 1 && m.Header.MessageLength == 20
+//@   ensures [C16] fields: m.Header.CommandFlags == flags && m.Header.CommandCode == cmd && m.Header.ApplicationID == appid
+//@   ensures [C16] ids: (hopbyhop != 0 ==> m.Header.HopByHopID == hopbyhop) && (endtoend != 0 ==> m.Header.EndToEndID == endtoend)
+//@   ensures rest: m.dictionary == dictionary && m.stream == InvalidStreamID
+//@ end
+//@
+//@ func (*Message).AddAVP(m, a)
+//@   property C02
+//@   requires m != nil && m.Header != nil && a != nil && a.Data != nil && valid(a.Data)
+//@   requires nongroup: !typeis(a.Data, *GroupedAVP)
+//@   modifies m.AVP, m.Header.MessageLength
+//@   ensures [C02] length_delta: m.Header.MessageLength == old(m.Header.MessageLength) + uint32(avplen(a))
+//@   ensures [C02] appended: len(m.AVP) == old(len(m.AVP)) + 1 && m.AVP[old(len(m.AVP))] == a
+//@   ensures [C02] kept: forall i int :: 0 <= i && i < old(len(m.AVP)) ==> m.AVP[i] == old(m.AVP[i])
+//@ end
+//@
+//@ func (*Message).InsertAVP(m, a)
+//@   property C02
+//@   requires m != nil && m.Header != nil && a != nil && a.Data != nil && valid(a.Data)
+//@   requires nongroup: !typeis(a.Data, *GroupedAVP)
+//@   modifies m.AVP, m.Header.MessageLength
+//@   ensures [C02] length_delta: m.Header.MessageLength == old(m.Header.MessageLength) + uint32(avplen(a))
+//@   ensures [C02] prepended: len(m.AVP) == old(len(m.AVP)) + 1 && m.AVP[0] == a
+//@   ensures [C02] kept: forall i int :: 0 <= i && i < old(len(m.AVP)) ==> m.AVP[i + 1] == old(m.AVP[i])
 //@ end
